@@ -39,6 +39,8 @@ const (
 	o3ThriftBase
 	o3ConvertException
 	o3BaseInCtx // a *base.BaseResp is passed in the context
+	o3WriteDefault
+	o3WriteRequire
 )
 
 // per-field extras that thriftgen's Fld does not carry
@@ -56,13 +58,66 @@ type gen03 struct {
 
 var aliasPool = []string{"k", "with space", "Ünï", "a.b", "x-y", "0", "Key", "中文", "a_b_c", "q?"}
 
+// pieces of special aliases; a backslash is only ever written doubled (thriftgo keeps "\\" as two backslashes and turns \" into ")
+var aliasSpecial = []string{"\"", "\\\\", "\t", "\n", "\x01", "\u00e9", "\u2028", "\U0001F600", "a", "k", " "}
+
+// map<string,V> -> map<binary,V> for some maps (keys are written as raw text either way)
+func (g *gen03) binaryKeys(t *Ty) {
+	switch t.K {
+	case thrift.MAP:
+		if t.Key.K == thrift.STRING && !t.Key.Binary && g.r.chance(35) {
+			t.Key = &Ty{K: thrift.STRING, Binary: true}
+		}
+		g.binaryKeys(t.Elem)
+	case thrift.LIST, thrift.SET:
+		g.binaryKeys(t.Elem)
+	}
+}
+
+// the aliases as the parsed descriptor reports them (the case carries what the descriptor declares, not what the
+// IDL printer meant to write)
+func (g *gen03) aliasesFromDesc(t *Ty, d *thrift.TypeDescriptor) {
+	if d == nil {
+		return
+	}
+	switch t.K {
+	case thrift.STRUCT:
+		if t == g.base || d.Struct() == nil {
+			return
+		}
+		for _, f := range t.Fields {
+			fd := d.Struct().FieldById(thrift.FieldID(f.ID))
+			if fd == nil {
+				die("C03: field %d of %s missing in the descriptor", f.ID, t.Name)
+			}
+			g.extra[f].alias = fd.Alias()
+			g.extra[f].respBase = fd.IsResponseBase() // only a field of the root struct is the response base
+			g.aliasesFromDesc(f.T, fd.Type())
+		}
+	case thrift.MAP:
+		g.aliasesFromDesc(t.Key, d.Key())
+		g.aliasesFromDesc(t.Elem, d.Elem())
+	case thrift.LIST, thrift.SET:
+		g.aliasesFromDesc(t.Elem, d.Elem())
+	}
+}
+
 func (g *gen03) decorate(root *Ty) {
 	for _, s := range g.structs {
 		for _, f := range s.Fields {
 			e := &fx03{alias: f.Name}
 			if g.r.chance(35) {
 				e.alias = fmt.Sprintf("%s%d", aliasPool[g.r.intn(len(aliasPool))], f.ID)
+				if g.r.chance(45) {
+					// api.key may be ANY string literal: aliases over an escape-relevant alphabet
+					e.alias = ""
+					for k := 1 + g.r.intn(3); k > 0; k-- {
+						e.alias += aliasSpecial[g.r.intn(len(aliasSpecial))]
+					}
+					e.alias += fmt.Sprintf("%d", f.ID)
+				}
 			}
+			g.binaryKeys(f.T)
 			k := f.T.K
 			okjs := k == thrift.I08 || k == thrift.I16 || k == thrift.I32 || k == thrift.I64 || k == thrift.DOUBLE || (k == thrift.STRING && !f.T.Binary)
 			if k == thrift.LIST {
@@ -99,7 +154,7 @@ func (g *gen03) idl03(root *Ty, useBase bool) (string, map[string]string) {
 			e := g.extra[f]
 			var ann []string
 			if e.alias != f.Name {
-				ann = append(ann, fmt.Sprintf("api.key=%q", e.alias))
+				ann = append(ann, "api.key=\""+strings.ReplaceAll(e.alias, "\"", "\\\"")+"\"")
 			}
 			if e.jsconv {
 				ann = append(ann, `api.js_conv=""`)
@@ -153,7 +208,11 @@ func (g *gen03) descFields(t *Ty, out *[]string) {
 			if e.respBase {
 				flags |= 2
 			}
-			*out = append(*out, fi(int(f.ID)), fs(e.alias), fi(f.Req), fi(flags))
+			req := f.Req
+			if e.respBase {
+				req = 2 // the parser makes the base field optional
+			}
+			*out = append(*out, fi(int(f.ID)), fs(e.alias), fi(req), fi(flags))
 			g.descFields(f.T, out)
 		}
 	case thrift.MAP:
@@ -337,6 +396,14 @@ func (g *gen03) genValue03(t *Ty, depth int, o *opt03) *Val {
 				n = bigBinaryLens[r.intn(7)] // up to 12289: crosses the 4096 / 8192 / 12288 block boundaries
 			}
 			v.S = r.bytes(n)
+			if r.chance(40) { // text-like binary (valid UTF-8, escape-relevant)
+				for i := range v.S {
+					v.S[i] = "abcXYZ019 \"\\/\n\t=+"[r.intn(17)]
+				}
+				if n == 0 {
+					v.S = []byte("key")
+				}
+			}
 		} else {
 			v.S = g.genStr03(o.badUTF8)
 		}
@@ -497,6 +564,7 @@ func genC03(r *rng, n int) {
 		if err != nil {
 			die("C03: IDL does not parse: %v\n%s", err, idl)
 		}
+		g.aliasesFromDesc(rootTy, desc)
 		var dfs []string
 		g.descFields(rootTy, &dfs)
 
@@ -516,6 +584,16 @@ func genC03(r *rng, n int) {
 				}
 				if !useBase {
 					opts &^= o3ThriftBase
+				}
+				// fields the message does not carry, written by option (not together with ConvertException: the error text
+				// would get the unset members appended, which no statement covers)
+				if opts&o3ConvertException == 0 {
+					if g.r.chance(20) {
+						opts |= o3WriteDefault
+					}
+					if g.r.chance(20) {
+						opts |= o3WriteRequire
+					}
 				}
 				if opts&o3ThriftBase != 0 && g.r.chance(75) {
 					opts |= o3BaseInCtx
@@ -541,6 +619,8 @@ func run03(g *gen03, desc *thrift.TypeDescriptor, dfs []string, tb []byte, opts 
 		EnableValueMapping:   opts&o3ValueMapping != 0,
 		EnableThriftBase:     opts&o3ThriftBase != 0,
 		ConvertException:     opts&o3ConvertException != 0,
+		WriteDefaultField:    opts&o3WriteDefault != 0,
+		WriteRequireField:    opts&o3WriteRequire != 0,
 	}
 	cv := t2j.NewBinaryConv(co)
 	// the options are also published under the documented context key (annotations may consult them)
